@@ -124,7 +124,12 @@ spifconf_register_context(spif_charptr_t name, ctx_handler_t handler)
             context = (ctx_t *) REALLOC(context, sizeof(ctx_t) * ctx_cnt);
         }
     } else {
+        /* The null context always lives in slot 0, however many contexts have been registered since. */
         FREE(context[0].name);
+        context[0].name = (spif_charptr_t) STRDUP(name);
+        context[0].handler = handler;
+        D_CONF(("Replaced context \"%s\" with ID 0 and handler 0x%08x\n", context[0].name, context[0].handler));
+        return (0);
     }
     context[ctx_idx].name = (spif_charptr_t) STRDUP(name);
     context[ctx_idx].handler = handler;
